@@ -14,6 +14,10 @@ import Ctrmml.Proofs.StarDecimal
 import Ctrmml.Proofs.LayoutLines2
 import Ctrmml.Proofs.LayoutDec2
 import Ctrmml.Proofs.LayoutTransfer
+import Ctrmml.Proofs.LayoutBlockLines2
+import Ctrmml.Proofs.LayoutCmd3
+import Ctrmml.Proofs.LayoutLines3
+import Ctrmml.Proofs.LayoutBlock3
 import Ctrmml.Proofs.IdsBound
 import Ctrmml.Spec.Layout
 namespace Ctrmml.C06
@@ -906,5 +910,332 @@ example : L2.LCmdNums (Track.new 24) (Cmd.echo (.len { v := 4 } 0)) ∧
     EndOk [] ∧ (∀ d, Cmd.echo (.len { v := 4 } 0) = .echo d → d ≠ .dflt 0) := by
   refine ⟨by decide, by decide +kernel, by decide, Or.inl rfl, ?_⟩
   intro d h; cases h; intro h2; cases h2
+
+/-! ### round 5: lines with conditional blocks over the round-3 command set
+
+`Proofs/LayoutBlock2`, `Proofs/LayoutBlockLines2`: the block theorems of round 2 replayed over
+`LCovered2`.  Outside a block every command of `LCovered2` is allowed (the loop break `/` included:
+there the block flag is clear).  Inside an alternative the reader runs with the block flag set and
+the byte `/` ends the alternative, so a loop break cannot be written there at all; `Clean` (part of
+`L2.ItemsOk`, unchanged) already says that no alternative spells `/`, hence the selected alternative
+has no loop break (`L2.noBreak_of_clean`) and the step lemma holds without the hypothesis on the
+block flag (`L2.lcmd_step_nb`, `L2.parse_seg_nb`).  So `V n`, `V+n`, `V-n` and `\` with a written
+duration are now covered inside and outside alternatives. -/
+
+/-- A MULTI-TRACK LAYOUT WITH CONDITIONAL BLOCKS RUNS, PER TRACK, AS THAT TRACK'S OWN COMMAND LIST,
+round 5 (PARTIAL: `L2.CmdsOk` — commands in `LCovered2`, numbers in range — for what each track
+receives; `Clean` inside `L2.BLinesOk` is the documented limit D16).  Same statement as
+`C06_multitrack_blocks_run_partial` over the wider command set. -/
+theorem C06_multitrack_blocks_run2_partial (ids : List Nat) (ls : List BLine) (n : Nat) (s : MmlState) (r : Bool)
+    (hnd : ids.Nodup) (hne : ids ≠ []) (hlen : ids.length ≤ 65536) (hok : L2.BLinesOk ids r ls) (hready : r = true → Ready ids s)
+    (hcmds : ∀ j id, ids[j]? = some id → L2.CmdsOk (trackOf id s).strip (blayoutCmds j ls)) :
+    ∃ s', readLines n (ls.map BLine.text) s = .ok () s' ∧
+      (∀ j id, ids[j]? = some id → (trackOf id s').strip = L2.runCmds (trackOf id s).strip (blayoutCmds j ls)) ∧
+      (∀ b, b ∉ ids → s'.song.tracks.lookup b = s.song.tracks.lookup b) := by
+  obtain ⟨s', h1, h2⟩ := L2.readLines_blayout ids hnd hne hlen ls n s r hok hready hcmds
+  exact ⟨s', h1, h2.tracks, h2.others⟩
+
+/-- MULTI-TRACK LINES WITH BLOCKS = THE EQUIVALENT SINGLE-TRACK LINES, round 5 (PARTIAL: `L2.CmdsOk`,
+and `Clean` inside `L2.BLinesOk`): `C06_multitrack_eq_single_blocks_partial` over the wider command
+set — the alternatives and the text around them may contain `V n`, `V+n`, `V-n`, `\` with a duration;
+the text outside blocks (and the single-track lines) also the loop break `/`. -/
+theorem C06_multitrack_eq_single_blocks2_partial (ids : List Nat) (j a : Nat) (multi : List BLine) (single : List LLine) (n1 n2 : Nat) (s : MmlState)
+    (hj : ids[j]? = some a) (hnd : ids.Nodup) (hlen : ids.length ≤ 65536)
+    (hok1 : L2.BLinesOk ids false multi) (hok2 : L2.LinesOk [a] false single)
+    (hsame : layoutCmds single = blayoutCmds j multi)
+    (hc : ∀ j id, ids[j]? = some id → L2.CmdsOk (trackOf id s).strip (blayoutCmds j multi)) :
+    ∃ s1' s2', readLines n1 (multi.map BLine.text) s = .ok () s1' ∧ readLines n2 (single.map LLine.text) s = .ok () s2' ∧
+      (trackOf a s1').strip = (trackOf a s2').strip ∧ (trackOf a s1').getEvents = (trackOf a s2').getEvents := by
+  have hne : ids ≠ [] := by intro h; rw [h] at hj; simp at hj
+  obtain ⟨s1', h1, t1, _⟩ := C06_multitrack_blocks_run2_partial ids multi n1 s false hnd hne hlen hok1 (fun h => by cases h) hc
+  obtain ⟨s2', h2, t2, _⟩ := C06_layout_run2_partial [a] single n2 s false (by simp) (by simp) hok2 (fun h => by cases h)
+    (fun id hid => by
+      have : id = a := by simpa using hid
+      subst this; rw [hsame]; exact hc j id hj)
+  have hst : (trackOf a s1').strip = (trackOf a s2').strip := by rw [t1 j a hj, t2 a (by simp), hsame]
+  refine ⟨s1', s2', h1, h2, hst, ?_⟩
+  rw [← Track.strip_getEvents, hst, Track.strip_getEvents]
+
+/-- `C06_multitrack_blocks_run2_partial` with 16-bit track numbers instead of the bound on the number of tracks -/
+theorem C06_multitrack_blocks_run2_16_partial (ids : List Nat) (ls : List BLine) (n : Nat) (s : MmlState) (r : Bool)
+    (hnd : ids.Nodup) (hne : ids ≠ []) (h16 : ∀ id ∈ ids, id < 65536) (hok : L2.BLinesOk ids r ls) (hready : r = true → Ready ids s)
+    (hcmds : ∀ j id, ids[j]? = some id → L2.CmdsOk (trackOf id s).strip (blayoutCmds j ls)) :
+    ∃ s', readLines n (ls.map BLine.text) s = .ok () s' ∧
+      (∀ j id, ids[j]? = some id → (trackOf id s').strip = L2.runCmds (trackOf id s).strip (blayoutCmds j ls)) ∧
+      (∀ b, b ∉ ids → s'.song.tracks.lookup b = s.song.tracks.lookup b) :=
+  C06_multitrack_blocks_run2_partial ids ls n s r hnd hne (C06_track_count_bound ids hnd h16) hok hready hcmds
+
+/-- `C06_multitrack_eq_single_blocks2_partial` with 16-bit track numbers instead of the bound on the number of tracks -/
+theorem C06_multitrack_eq_single_blocks2_16_partial (ids : List Nat) (j a : Nat) (multi : List BLine) (single : List LLine) (n1 n2 : Nat) (s : MmlState)
+    (hj : ids[j]? = some a) (hnd : ids.Nodup) (h16 : ∀ id ∈ ids, id < 65536)
+    (hok1 : L2.BLinesOk ids false multi) (hok2 : L2.LinesOk [a] false single)
+    (hsame : layoutCmds single = blayoutCmds j multi)
+    (hc : ∀ j id, ids[j]? = some id → L2.CmdsOk (trackOf id s).strip (blayoutCmds j multi)) :
+    ∃ s1' s2', readLines n1 (multi.map BLine.text) s = .ok () s1' ∧ readLines n2 (single.map LLine.text) s = .ok () s2' ∧
+      (trackOf a s1').strip = (trackOf a s2').strip ∧ (trackOf a s1').getEvents = (trackOf a s2').getEvents :=
+  C06_multitrack_eq_single_blocks2_partial ids j a multi single n1 n2 s hj hnd (C06_track_count_bound ids hnd h16) hok1 hok2 hsame hc
+
+open Ctrmml.MmlMeaning (Cmd) in
+/-- the `Clean` hypothesis is automatic inside `LCovered2` minus the loop break: an alternative made
+of blanks, tabs, bars and such commands never spells `/`, `;`, `}` or NUL -/
+theorem C06_alternatives_clean2 (a : List Tok) (hb : ∀ b, Tok.blank b ∈ a → b = 32 ∨ b = 9) (hcov : ∀ c ∈ cmdsOf a, LCovered2 c)
+    (hnb : ∀ c ∈ cmdsOf a, c ≠ Cmd.simple .loopBreak none) : Clean (altText a) :=
+  L2.clean_alt a hb hcov hnb
+
+open Ctrmml.MmlMeaning (Cmd) in
+/-- … and conversely a clean alternative contains no loop break (its spelling is the byte `/`) -/
+theorem C06_clean_no_break (a : List Tok) (h : Clean (altText a)) : ∀ c ∈ cmdsOf a, c ≠ Cmd.simple .loopBreak none :=
+  L2.noBreak_of_clean a h
+
+/-- OLD ⇒ NEW for block lines: `BLinesOk` gives `L2.BLinesOk` when the commands each position
+receives are those of round 2 (in the whole-line theorems that is part of `CmdsOk`) -/
+theorem C06_blinesOk_transfer (ids : List Nat) (r : Bool) (ls : List BLine) (h : BLinesOk ids r ls)
+    (hcov : ∀ j, j < ids.length → ∀ c ∈ blayoutCmds j ls, LCovered c) : L2.BLinesOk ids r ls :=
+  L2.blinesOk_of_old ids ls r h hcov
+
+/-- the round-2 block theorem follows from the round-5 one: same hypotheses, same conclusion -/
+theorem C06_multitrack_blocks_run_from_v2 (ids : List Nat) (ls : List BLine) (n : Nat) (s : MmlState) (r : Bool)
+    (hnd : ids.Nodup) (hne : ids ≠ []) (hlen : ids.length ≤ 65536) (hok : BLinesOk ids r ls) (hready : r = true → Ready ids s)
+    (hcmds : ∀ j id, ids[j]? = some id → CmdsOk (trackOf id s).strip (blayoutCmds j ls)) :
+    ∃ s', readLines n (ls.map BLine.text) s = .ok () s' ∧
+      (∀ j id, ids[j]? = some id → (trackOf id s').strip = runCmds (trackOf id s).strip (blayoutCmds j ls)) ∧
+      (∀ b, b ∉ ids → s'.song.tracks.lookup b = s.song.tracks.lookup b) := by
+  have hcov : ∀ j, j < ids.length → ∀ c ∈ blayoutCmds j ls, LCovered c := by
+    intro j hj
+    have hid : ids[j]? = some ids[j] := List.getElem?_eq_getElem hj
+    exact cmdsOk_covered _ _ (hcmds j _ hid)
+  obtain ⟨s', h1, h2, h3⟩ := C06_multitrack_blocks_run2_partial ids ls n s r hnd hne hlen (C06_blinesOk_transfer ids r ls hok hcov) hready
+    (fun j id hid => L2.cmdsOk_of_old _ _ (hcmds j id hid))
+  refine ⟨s', h1, fun j id hid => ?_, h3⟩
+  rw [h2 j id hid]
+  exact L2.runCmds_of_old _ _ (cmdsOk_covered _ _ (hcmds j id hid))
+
+/-! non-vacuity: fine volume inside the alternatives, an echo behind the block -/
+
+/-- `AB o4 {c V10/d V+2} \4 e` -/
+def exBlocks2 : List BLine :=
+  [.hdr [.letter 0, .letter 1] 32
+    [.toks [.cmd (.octave { v := 4 }), .blank 32],
+     .block [[.cmd (.note 2 .none (.dflt 0)), .blank 32, .cmd (.simple .volFine (some { v := 10 }))],
+             [.cmd (.note 3 .none (.dflt 0)), .blank 32, .cmd (.simple .volFineUp (some { v := 2 }))]],
+     .toks [.blank 32, .cmd (.echo (.len { v := 4 } 0)), .blank 32, .cmd (.note 4 .none (.dflt 0))]] []]
+
+/-- what `B` receives, as the single-track lines `B o4 d|V+2`, `<tab>\4 e ; x` -/
+def exBlocks2B : List LLine :=
+  [.hdr [.letter 1] 32 [.cmd (.octave { v := 4 }), .blank 32, .cmd (.note 3 .none (.dflt 0)), .bar, .cmd (.simple .volFineUp (some { v := 2 }))] [],
+   .cont 9 [.cmd (.echo (.len { v := 4 } 0)), .blank 32, .cmd (.note 4 .none (.dflt 0)), .blank 32] (tx "; x")]
+
+example : exBlocks2.map BLine.text = [tx "AB o4 {c V10/d V+2} \\4 e"] ∧
+    exBlocks2B.map LLine.text = [tx "B o4 d|V+2", tx "\t\\4 e ; x"] ∧ layoutCmds exBlocks2B = blayoutCmds 1 exBlocks2 := by
+  refine ⟨by decide, by decide, rfl⟩
+
+/-- the hypotheses of `C06_multitrack_blocks_run2_partial` / `C06_multitrack_eq_single_blocks2_partial`
+(and of their 16-bit forms) hold; the round-2 hypotheses do not (the commands are not in `LCovered`) -/
+example : L2.BLinesOk [0, 1] false exBlocks2 ∧ L2.LinesOk [1] false exBlocks2B ∧ [0, 1].Nodup ∧ (∀ id ∈ [0, 1], id < 65536) ∧
+    (∀ j, j < 2 → L2.CmdsOk (trackOf ([0, 1].getD j 0) MmlState.init).strip (blayoutCmds j exBlocks2)) ∧
+    ¬ CmdsOk (trackOf 1 MmlState.init).strip (blayoutCmds 1 exBlocks2) := by
+  decide +kernel
+
+/-- … and the model evaluated on the texts agrees: B's events are those of its single-track lines -/
+example :
+    ((outcome ["AB o4 {c V10/d V+2} \\4 e"]).2.lookup 1) = ((outcome ["B o4 d|V+2", "\t\\4 e ; x"]).2.lookup 1) ∧
+    (outcome ["AB o4 {c V10/d V+2} \\4 e"]).1 = none := by
+  decide +kernel
+
+/-- the alternatives of the example are clean by `C06_alternatives_clean2` -/
+example : (∀ b, Tok.blank b ∈ [Tok.cmd (.note 3 .none (.dflt 0)), .blank 32, .cmd (.simple .volFineUp (some { v := 2 }))] → b = 32 ∨ b = 9) ∧
+    (∀ c ∈ cmdsOf [Tok.cmd (.note 3 .none (.dflt 0)), .blank 32, .cmd (.simple .volFineUp (some { v := 2 }))],
+      LCovered2 c ∧ c ≠ MmlMeaning.Cmd.simple .loopBreak none) := by
+  refine ⟨fun b hb => ?_, fun c hc => ?_⟩
+  · simp at hb; exact Or.inl hb
+  · simp [cmdsOf] at hc
+    rcases hc with rfl | rfl
+    · exact ⟨by decide, by simp⟩
+    · exact ⟨by decide, by simp⟩
+
+
+/-! ### round 5, second part: the bare echo `\` before a blank or the end of the line
+
+`Proofs/LayoutCmd3` (namespace `L3`): `mml_echo` reads the byte behind `\` with `get_token()`, which
+skips blanks; when the first other byte starts no number (or the line ends) `read_duration` takes the
+default length there.  The bytes consumed are `countBlanks`, which for such a tail equals what
+`numSpan` skips, so `L2.lcmdSkip` is already right and only the look-ahead condition is widened:
+`L3.LCmdTail` = `L2.LCmdTail` with `EchoHead` replaced by `EchoHead ∨ (the echo is bare ∧ BareTail)`. -/
+
+open Ctrmml.MmlMeaning (Cmd) in
+/-- every round-3 look-ahead condition gives the widened one -/
+theorem C06_lcmdTail_v2_to_v3 (c : Cmd) (tail : List Nat) (h : L2.LCmdTail c tail) : L3.LCmdTail c tail :=
+  L3.lcmdTail_of_v2 c tail h
+
+open Ctrmml.MmlMeaning (Cmd) in
+/-- ONE COVERED COMMAND AT THE CURSOR under the widened look-ahead condition (the bare `\` before
+blanks or the end of the line included): the reader makes the builder call `L2.lcmdTrack` and
+consumes the spelling plus `L2.lcmdSkip` bytes, as in round 3 -/
+theorem C06_covered_step3 (f : Nat) (s : MmlState) (hs : Sane s) (cmd : Cmd) (tail : List Nat) (hc : LCovered2 cmd)
+    (hcb : s.conditionalBlock = false)
+    (hsuf : suffix s = cmd.bytes ++ tail) (hn : L2.LCmdNums (getTrack s).strip cmd) (ht : L3.LCmdTail cmd tail) :
+    parseMmlTrackF (f + 1) s =
+      parseMmlTrackF f (adv (setTrack s (L2.lcmdTrack ((getTrack s).setReference (some { line := s.inp.line, column := s.inp.lb.column })) cmd))
+        (cmd.bytes.length + L2.lcmdSkip cmd tail)) :=
+  L3.lcmd_step f s hs cmd tail hc hcb hsuf hn ht
+
+open Ctrmml.MmlMeaning (Cmd) in
+/-- A SEPARATOR SUFFICES, WITHOUT SIDE CONDITION: behind a blank, tab, `|`, `;` or the end of the line
+the look-ahead condition `L3.LCmdTail` of EVERY command holds over `LCovered2` — `C06_separator_suffices2`
+without its hypothesis on the echo -/
+theorem C06_separator_suffices3 (t : Track) (cmd : Cmd) (hn : L2.LCmdNums t cmd) (ts : List Tok) (e : List Nat) (hok : L2.ToksOk ts e)
+    (hcov : ∀ c ∈ cmdsOf ts, LCovered2 c) (he : EndOk e) (hts : ∀ c ts', ts ≠ Tok.cmd c :: ts') :
+    L3.LCmdTail cmd (toksText ts e) :=
+  L3.cmdTail_of_sep t cmd hn ts e hok hcov he hts
+
+open Ctrmml.MmlMeaning (Cmd) in
+/-- the case `C06_bare_echo_separator_counterexample` excludes from `L2.LCmdTail` is inside `L3.LCmdTail` -/
+example : L3.LCmdTail (Cmd.echo (.dflt 0)) (toksText [.blank 32, .cmd (.note 2 .none (.dflt 0))] []) :=
+  C06_separator_suffices3 (Track.new 24) (Cmd.echo (.dflt 0)) trivial _ [] (by decide) (fun c hc => by simp [cmdsOf] at hc; subst hc; decide) (Or.inl rfl)
+    (fun c ts' h => by cases h)
+
+/-- … and the model evaluated on `AB o4 \ c` / `B o4\`, ` c` accepts both and gives B the same events -/
+example :
+    ((outcome ["AB o4 \\ c"]).2.lookup 1) = ((outcome ["B o4\\", " c"]).2.lookup 1) ∧ (outcome ["AB o4 \\ c"]).1 = none ∧
+    (outcome ["B o4\\", " c"]).1 = none := by
+  decide +kernel
+
+/-! ### round 5, third part: whole lines with the bare echo
+
+`Proofs/LayoutLines3` (namespace `L2.W`): the whole-line theorems of round 3 replayed with `ToksOk` /
+`LineOk` / `LinesOk` over the look-ahead condition `L3.LCmdTail`; commands, builder calls, `L2.CmdsOk`,
+`L2.runCmds` are those of round 3.  `L2.LinesOk ⇒ L2.W.LinesOk` holds with no side condition, so these
+statements subsume the `*2` ones; new inputs: lines in which a bare `\` is followed by blanks, a bar,
+a comment or the end of the line. -/
+
+/-- `L2.LinesOk` ⇒ `L2.W.LinesOk` -/
+theorem C06_linesOk_v2_to_v3 (ids : List Nat) (r : Bool) (ls : List LLine) (h : L2.LinesOk ids r ls) : L2.W.LinesOk ids r ls :=
+  L2.W.linesOk_of_v2 ids ls r h
+
+/-- A LAYOUT RUNS AS ITS COMMAND LIST, round 5 (PARTIAL: `L2.CmdsOk`; lines without conditional blocks):
+`C06_layout_run2_partial` with the bare echo `\` before blanks or the end of the line allowed. -/
+theorem C06_layout_run3_partial (ids : List Nat) (ls : List LLine) (n : Nat) (s : MmlState) (r : Bool)
+    (hnd : ids.Nodup) (hne : ids ≠ []) (hok : L2.W.LinesOk ids r ls) (hready : r = true → Ready ids s)
+    (hcmds : ∀ id ∈ ids, L2.CmdsOk (trackOf id s).strip (layoutCmds ls)) :
+    ∃ s', readLines n (ls.map LLine.text) s = .ok () s' ∧
+      (∀ id ∈ ids, (trackOf id s').strip = L2.runCmds (trackOf id s).strip (layoutCmds ls)) ∧
+      (∀ b, b ∉ ids → s'.song.tracks.lookup b = s.song.tracks.lookup b) := by
+  obtain ⟨s', h1, h2⟩ := L2.W.readLines_layout ids hnd hne ls n s r hok hready hcmds
+  exact ⟨s', h1, h2.tracks, h2.others⟩
+
+/-- LAYOUT INVARIANCE, round 5 (PARTIAL: `L2.CmdsOk`): `C06_layout_invariant2_partial` over `L2.W.LinesOk`. -/
+theorem C06_layout_invariant3_partial (a : Nat) (ids1 ids2 : List Nat) (ls1 ls2 : List LLine) (n1 n2 : Nat) (s1 s2 : MmlState) (r1 r2 : Bool)
+    (ha1 : a ∈ ids1) (ha2 : a ∈ ids2) (hnd1 : ids1.Nodup) (hnd2 : ids2.Nodup)
+    (hok1 : L2.W.LinesOk ids1 r1 ls1) (hok2 : L2.W.LinesOk ids2 r2 ls2) (hr1 : r1 = true → Ready ids1 s1) (hr2 : r2 = true → Ready ids2 s2)
+    (hsame : layoutCmds ls1 = layoutCmds ls2) (hstart : (trackOf a s1).strip = (trackOf a s2).strip)
+    (hc1 : ∀ id ∈ ids1, L2.CmdsOk (trackOf id s1).strip (layoutCmds ls1))
+    (hc2 : ∀ id ∈ ids2, L2.CmdsOk (trackOf id s2).strip (layoutCmds ls2)) :
+    ∃ s1' s2', readLines n1 (ls1.map LLine.text) s1 = .ok () s1' ∧ readLines n2 (ls2.map LLine.text) s2 = .ok () s2' ∧
+      (trackOf a s1').strip = (trackOf a s2').strip ∧ (trackOf a s1').getEvents = (trackOf a s2').getEvents := by
+  obtain ⟨s1', h1, t1, _⟩ := C06_layout_run3_partial ids1 ls1 n1 s1 r1 hnd1 (List.ne_nil_of_mem ha1) hok1 hr1 hc1
+  obtain ⟨s2', h2, t2, _⟩ := C06_layout_run3_partial ids2 ls2 n2 s2 r2 hnd2 (List.ne_nil_of_mem ha2) hok2 hr2 hc2
+  have hst : (trackOf a s1').strip = (trackOf a s2').strip := by rw [t1 a ha1, t2 a ha2, hsame, hstart]
+  refine ⟨s1', s2', h1, h2, hst, ?_⟩
+  rw [← Track.strip_getEvents, hst, Track.strip_getEvents]
+
+/-- MULTI-TRACK LINES = SINGLE-TRACK LINES, round 5 (PARTIAL: `L2.CmdsOk`; lines without conditional blocks) -/
+theorem C06_multitrack_eq_single3_partial (ids : List Nat) (a : Nat) (multi single : List LLine) (n1 n2 : Nat) (s : MmlState)
+    (ha : a ∈ ids) (hnd : ids.Nodup) (hok1 : L2.W.LinesOk ids false multi) (hok2 : L2.W.LinesOk [a] false single)
+    (hsame : layoutCmds multi = layoutCmds single)
+    (hc : ∀ id ∈ ids, L2.CmdsOk (trackOf id s).strip (layoutCmds multi)) :
+    ∃ s1' s2', readLines n1 (multi.map LLine.text) s = .ok () s1' ∧ readLines n2 (single.map LLine.text) s = .ok () s2' ∧
+      (trackOf a s1').strip = (trackOf a s2').strip ∧ (trackOf a s1').getEvents = (trackOf a s2').getEvents :=
+  C06_layout_invariant3_partial a ids [a] multi single n1 n2 s s false false ha (by simp) hnd (by simp) hok1 hok2
+    (fun h => by cases h) (fun h => by cases h) hsame rfl hc
+    (fun id hid => by
+      have : id = a := by simpa using hid
+      subst this; rw [← hsame]; exact hc id ha)
+
+/-- `AB o4 \ c` -/
+def exMulti3 : List LLine :=
+  [.hdr [.letter 0, .letter 1] 32
+    [.cmd (.octave { v := 4 }), .blank 32, .cmd (.echo (.dflt 0)), .blank 32, .cmd (.note 2 .none (.dflt 0))] []]
+
+/-- `B o4\` and ` c ; x`: the bare echo at the end of a line -/
+def exSingle3 : List LLine :=
+  [.hdr [.letter 1] 32 [.cmd (.octave { v := 4 }), .cmd (.echo (.dflt 0))] [],
+   .cont 32 [.cmd (.note 2 .none (.dflt 0)), .blank 32] (tx "; x")]
+
+example : exMulti3.map LLine.text = [tx "AB o4 \\ c"] ∧ exSingle3.map LLine.text = [tx "B o4\\", tx " c ; x"] ∧
+    layoutCmds exMulti3 = layoutCmds exSingle3 := by
+  refine ⟨by decide, by decide, rfl⟩
+
+/-- the hypotheses of the three theorems hold for them; the round-3 hypotheses do not (`\` + blank is outside `L2.LCmdTail`) -/
+example : L2.W.LinesOk [0, 1] false exMulti3 ∧ L2.W.LinesOk [1] false exSingle3 ∧ [0, 1].Nodup ∧
+    (∀ id ∈ [0, 1], L2.CmdsOk (trackOf id MmlState.init).strip (layoutCmds exMulti3)) ∧
+    ¬ L2.LinesOk [0, 1] false exMulti3 ∧ ¬ L2.LinesOk [1] false exSingle3 := by
+  decide +kernel
+
+/-! ### round 5, fourth part: lines with conditional blocks and the bare echo
+
+`Proofs/LayoutBlock3` (namespace `L2.W`): the block files replayed over `L3.LCmdTail`.  These are the
+widest block statements: `LCovered2` commands, the bare `\` before blanks, a bar, `/`, `}` or the end of
+the line included, inside and outside alternatives (no loop break inside an alternative: D16). -/
+
+/-- `L2.BLinesOk` ⇒ `L2.W.BLinesOk` (no side condition) -/
+theorem C06_blinesOk_v2_to_v3 (ids : List Nat) (r : Bool) (ls : List BLine) (h : L2.BLinesOk ids r ls) : L2.W.BLinesOk ids r ls :=
+  L2.W.blinesOk_of_v2 ids ls r h
+
+/-- `C06_multitrack_blocks_run2_partial` over `L2.W.BLinesOk` (PARTIAL: `L2.CmdsOk`; `Clean` + one alternative per track = D16) -/
+theorem C06_multitrack_blocks_run3_partial (ids : List Nat) (ls : List BLine) (n : Nat) (s : MmlState) (r : Bool)
+    (hnd : ids.Nodup) (hne : ids ≠ []) (hlen : ids.length ≤ 65536) (hok : L2.W.BLinesOk ids r ls) (hready : r = true → Ready ids s)
+    (hcmds : ∀ j id, ids[j]? = some id → L2.CmdsOk (trackOf id s).strip (blayoutCmds j ls)) :
+    ∃ s', readLines n (ls.map BLine.text) s = .ok () s' ∧
+      (∀ j id, ids[j]? = some id → (trackOf id s').strip = L2.runCmds (trackOf id s).strip (blayoutCmds j ls)) ∧
+      (∀ b, b ∉ ids → s'.song.tracks.lookup b = s.song.tracks.lookup b) := by
+  obtain ⟨s', h1, h2⟩ := L2.W.readLines_blayout ids hnd hne hlen ls n s r hok hready hcmds
+  exact ⟨s', h1, h2.tracks, h2.others⟩
+
+/-- `C06_multitrack_eq_single_blocks2_partial` over `L2.W.BLinesOk` / `L2.W.LinesOk` (PARTIAL: `L2.CmdsOk`, `Clean`) -/
+theorem C06_multitrack_eq_single_blocks3_partial (ids : List Nat) (j a : Nat) (multi : List BLine) (single : List LLine) (n1 n2 : Nat) (s : MmlState)
+    (hj : ids[j]? = some a) (hnd : ids.Nodup) (hlen : ids.length ≤ 65536)
+    (hok1 : L2.W.BLinesOk ids false multi) (hok2 : L2.W.LinesOk [a] false single)
+    (hsame : layoutCmds single = blayoutCmds j multi)
+    (hc : ∀ j id, ids[j]? = some id → L2.CmdsOk (trackOf id s).strip (blayoutCmds j multi)) :
+    ∃ s1' s2', readLines n1 (multi.map BLine.text) s = .ok () s1' ∧ readLines n2 (single.map LLine.text) s = .ok () s2' ∧
+      (trackOf a s1').strip = (trackOf a s2').strip ∧ (trackOf a s1').getEvents = (trackOf a s2').getEvents := by
+  have hne : ids ≠ [] := by intro h; rw [h] at hj; simp at hj
+  obtain ⟨s1', h1, t1, _⟩ := C06_multitrack_blocks_run3_partial ids multi n1 s false hnd hne hlen hok1 (fun h => by cases h) hc
+  obtain ⟨s2', h2, t2, _⟩ := C06_layout_run3_partial [a] single n2 s false (by simp) (by simp) hok2 (fun h => by cases h)
+    (fun id hid => by
+      have : id = a := by simpa using hid
+      subst this; rw [hsame]; exact hc j id hj)
+  have hst : (trackOf a s1').strip = (trackOf a s2').strip := by rw [t1 j a hj, t2 a (by simp), hsame]
+  refine ⟨s1', s2', h1, h2, hst, ?_⟩
+  rw [← Track.strip_getEvents, hst, Track.strip_getEvents]
+
+/-- `AB o4 {c \ /d V+2} \ e`: a bare echo before ` /` inside an alternative and before ` e` behind the block -/
+def exBlocks3 : List BLine :=
+  [.hdr [.letter 0, .letter 1] 32
+    [.toks [.cmd (.octave { v := 4 }), .blank 32],
+     .block [[.cmd (.note 2 .none (.dflt 0)), .blank 32, .cmd (.echo (.dflt 0)), .blank 32],
+             [.cmd (.note 3 .none (.dflt 0)), .blank 32, .cmd (.simple .volFineUp (some { v := 2 }))]],
+     .toks [.blank 32, .cmd (.echo (.dflt 0)), .blank 32, .cmd (.note 4 .none (.dflt 0))]] []]
+
+/-- what `A` receives, as the single-track line `A o4 c\|\ e` -/
+def exBlocks3A : List LLine :=
+  [.hdr [.letter 0] 32 [.cmd (.octave { v := 4 }), .blank 32, .cmd (.note 2 .none (.dflt 0)), .cmd (.echo (.dflt 0)), .bar,
+     .cmd (.echo (.dflt 0)), .blank 32, .cmd (.note 4 .none (.dflt 0))] []]
+
+example : exBlocks3.map BLine.text = [tx "AB o4 {c \\ /d V+2} \\ e"] ∧ exBlocks3A.map LLine.text = [tx "A o4 c\\|\\ e"] ∧
+    layoutCmds exBlocks3A = blayoutCmds 0 exBlocks3 := by
+  refine ⟨by decide, by decide, rfl⟩
+
+/-- the hypotheses of the two theorems hold; those of the first part do not -/
+example : L2.W.BLinesOk [0, 1] false exBlocks3 ∧ L2.W.LinesOk [0] false exBlocks3A ∧ [0, 1].Nodup ∧
+    (∀ j, j < 2 → L2.CmdsOk (trackOf ([0, 1].getD j 0) MmlState.init).strip (blayoutCmds j exBlocks3)) ∧
+    ¬ L2.BLinesOk [0, 1] false exBlocks3 := by
+  decide +kernel
+
+/-- … and the model evaluated on the texts agrees -/
+example :
+    ((outcome ["AB o4 {c \\ /d V+2} \\ e"]).2.lookup 0) = ((outcome ["A o4 c\\|\\ e"]).2.lookup 0) ∧
+    (outcome ["AB o4 {c \\ /d V+2} \\ e"]).1 = none := by
+  decide +kernel
 
 end Ctrmml.C06
